@@ -59,16 +59,27 @@ def match_shapes(expected, actual, eps_fn):
 
 
 def run_e2e(report, n_fonts, rng):
+    from harness.c06 import CORPUS_SETS
+
     formats = ["glyf_colr_0", "cff_colr_0", "cff2_colr_0", "glyf"]
-    for i in range(n_fonts):
+    # directed source sets first: solid-filled sets of the reuse corpus (several donors under one transform, mirrors)
+    directed = [(name, texts) for name, fmts, tol, texts in CORPUS_SETS if name in ("two-donors-one-transform", "axis-scale-plus-shift", "translucent-black-donor")]
+    n_directed = len(directed) * 2
+    for i in range(n_directed + n_fonts):
         fmt = formats[i % len(formats)]
         solid = fmt != "glyf" and rng.random() < 0.6
         cfg_over = e2e.gen_config(rng, fmt)
         docs, srcs = e2e.gen_sources(rng, solid_only=solid, allow_groups=not solid, var_opaque=True)
+        if i < n_directed:
+            name, texts = directed[i // 2]
+            fmt = ["glyf_colr_0", "glyf"][i % 2]
+            solid = fmt != "glyf"
+            cfg_over = dict(color_format=fmt, upem=1024, ascender=896, descender=-128, width=1024, reuse_tolerance=0.1)
+            srcs = [(build.filename_for((0x1F600 + k,)), t, (0x1F600 + k,)) for k, t in enumerate(texts)]
         # the first fonts go through the real command line with the values most easily lost on the way (zeros, false)
-        via = {0: "flag", 1: "file", 3: "flag"}.get(i)
+        via = {0: "flag", 1: "file", 3: "flag"}.get(i - n_directed) if i >= n_directed else None
         if via:
-            cfg_over = dict(color_format=fmt, upem=1000, ascender=1000, descender=0, width=0 if i != 1 else 1000, clip_to_viewbox=i != 1, keep_glyph_names=False)
+            cfg_over = dict(color_format=fmt, upem=1000, ascender=1000, descender=0, width=0 if i - n_directed != 1 else 1000, clip_to_viewbox=i - n_directed != 1, keep_glyph_names=False)
             if fmt.startswith("cff"):
                 cfg_over["output_file"] = "Font.otf"
         try:
